@@ -60,6 +60,12 @@ def r1(ck):
                 for (cp, cs), why in ALLOWED_DROPS.items():
                     if fid.startswith(cp) and rp.endswith(cs):
                         allowed = why
+                # text for the terminal is not an output of the push: `let _ = writeln!(io::stdout(), ..)` (println! that does not
+                # panic on a closed pipe) may ignore the error
+                if allowed is None and t["argtys"] and rp.split("::")[-1] in ("write_fmt", "write_all", "write_str", "flush", "write") and \
+                        any(x in t["argtys"][0] for x in ("std::io::Stdout", "std::io::Stderr", "std::io::StdoutLock", "std::io::StderrLock",
+                                                          "std::io::stdio::Stdout", "std::io::stdio::Stderr")):
+                    allowed = "written to the terminal (stdout / stderr), not to a file of the push"
                 if allowed:
                     ck.ok(rule, inst, "dropped by design: %s" % allowed, fn.where(t))
                 else:
